@@ -52,50 +52,50 @@ mod verif_c05_altitude {
         r == vs::AltRegion::GillhamIllegal
     }
 
-    //@ob id=C05.altitude.ac13.q1_nonneg.14 props=C05,C01 tier=quick kind=contract fns=adsb/altitude.rs:altitude,adsb/altitude.rs:altitude_value,utils/ma_code.rs:ma_code draw=frame14
+    //@ob id=C05.altitude.ac13.q1_nonneg.14 props=C05,C01 tier=quick kind=contract fns=adsb/altitude.rs:altitude,adsb/altitude.rs:altitude_value,utils/ma_code.rs:ma_code draw=frame14 replay=altitude13
     //@region DF4-style short frames, AC13 with M=0,Q=1 and 25N-1000>=0: altitude == 25N-1000 (any df argument other than 17)
     alt_region_proof!(c05_ac13_q1_nonneg_14, any_frame14, any_df_not17(), is_q1);
-    //@ob id=C05.altitude.ac13.q1_nonneg.28 props=C05,C01 tier=quick kind=contract fns=adsb/altitude.rs:altitude,adsb/altitude.rs:altitude_value,utils/ma_code.rs:ma_code draw=frame28
+    //@ob id=C05.altitude.ac13.q1_nonneg.28 props=C05,C01 tier=quick kind=contract fns=adsb/altitude.rs:altitude,adsb/altitude.rs:altitude_value,utils/ma_code.rs:ma_code draw=frame28 replay=altitude13
     //@region DF20-style long frames, AC13 with M=0,Q=1 and 25N-1000>=0
     alt_region_proof!(c05_ac13_q1_nonneg_28, any_frame28, any_df_not17(), is_q1);
-    //@ob id=C05.altitude.ac13.q1_neg.14 props=C05,C01 tier=quick kind=contract fns=adsb/altitude.rs:altitude,adsb/altitude.rs:altitude_value draw=frame14
+    //@ob id=C05.altitude.ac13.q1_neg.14 props=C05,C01 tier=quick kind=contract fns=adsb/altitude.rs:altitude,adsb/altitude.rs:altitude_value draw=frame14 replay=altitude13
     //@region short frames, AC13 with M=0,Q=1 and 25N-1000<0 (N<40): no altitude, no arithmetic overflow
     alt_region_proof!(c05_ac13_q1_neg_14, any_frame14, any_df_not17(), is_q1neg);
-    //@ob id=C05.altitude.ac13.q1_neg.28 props=C05,C01 tier=quick kind=contract fns=adsb/altitude.rs:altitude,adsb/altitude.rs:altitude_value draw=frame28
+    //@ob id=C05.altitude.ac13.q1_neg.28 props=C05,C01 tier=quick kind=contract fns=adsb/altitude.rs:altitude,adsb/altitude.rs:altitude_value draw=frame28 replay=altitude13
     //@region long frames, AC13 with M=0,Q=1 and N<40
     alt_region_proof!(c05_ac13_q1_neg_28, any_frame28, any_df_not17(), is_q1neg);
-    //@ob id=C05.altitude.ac13.zero_metric.14 props=C05,C01 tier=quick kind=contract fns=adsb/altitude.rs:altitude,adsb/altitude.rs:altitude_value draw=frame14
+    //@ob id=C05.altitude.ac13.zero_metric.14 props=C05,C01 tier=quick kind=contract fns=adsb/altitude.rs:altitude,adsb/altitude.rs:altitude_value draw=frame14 replay=altitude13
     //@region short frames, AC13 all zero (no altitude) or M=1 (unconstrained value, but must not crash)
     alt_region_proof!(c05_ac13_zero_metric_14, any_frame14, any_df_not17(), is_zero_or_metric);
-    //@ob id=C05.altitude.ac13.zero_metric.28 props=C05,C01 tier=quick kind=contract fns=adsb/altitude.rs:altitude,adsb/altitude.rs:altitude_value draw=frame28
+    //@ob id=C05.altitude.ac13.zero_metric.28 props=C05,C01 tier=quick kind=contract fns=adsb/altitude.rs:altitude,adsb/altitude.rs:altitude_value draw=frame28 replay=altitude13
     //@region long frames, AC13 all zero or M=1
     alt_region_proof!(c05_ac13_zero_metric_28, any_frame28, any_df_not17(), is_zero_or_metric);
-    //@ob id=C05.altitude.ac13.gillham_legal.14 props=C05,C01 tier=quick kind=contract fns=adsb/altitude.rs:altitude,adsb/altitude/graytobin.rs:graytobin draw=frame14
+    //@ob id=C05.altitude.ac13.gillham_legal.14 props=C05,C01 tier=quick kind=contract fns=adsb/altitude.rs:altitude,adsb/altitude/graytobin.rs:graytobin draw=frame14 replay=altitude13
     //@region short frames, AC13 with M=0,Q=0, legal Gillham code: 100-ft Gillham decoding
     alt_region_proof!(c05_ac13_gillham_legal_14, any_frame14, any_df_not17(), is_gillham_legal);
-    //@ob id=C05.altitude.ac13.gillham_legal.28 props=C05,C01 tier=quick kind=contract fns=adsb/altitude.rs:altitude,adsb/altitude/graytobin.rs:graytobin draw=frame28
+    //@ob id=C05.altitude.ac13.gillham_legal.28 props=C05,C01 tier=quick kind=contract fns=adsb/altitude.rs:altitude,adsb/altitude/graytobin.rs:graytobin draw=frame28 replay=altitude13
     //@region long frames, AC13 with M=0,Q=0, legal Gillham code
     alt_region_proof!(c05_ac13_gillham_legal_28, any_frame28, any_df_not17(), is_gillham_legal);
-    //@ob id=C05.altitude.ac13.gillham_illegal.14 props=C05,C01 tier=quick kind=contract fns=adsb/altitude.rs:altitude,adsb/altitude/graytobin.rs:graytobin draw=frame14
+    //@ob id=C05.altitude.ac13.gillham_illegal.14 props=C05,C01 tier=quick kind=contract fns=adsb/altitude.rs:altitude,adsb/altitude/graytobin.rs:graytobin draw=frame14 replay=altitude13
     //@region short frames, AC13 with M=0,Q=0, illegal Gillham code (C bits zero, or 100-ft digit 6): no altitude
     alt_region_proof!(c05_ac13_gillham_illegal_14, any_frame14, any_df_not17(), is_gillham_illegal);
-    //@ob id=C05.altitude.ac13.gillham_illegal.28 props=C05,C01 tier=quick kind=contract fns=adsb/altitude.rs:altitude,adsb/altitude/graytobin.rs:graytobin draw=frame28
+    //@ob id=C05.altitude.ac13.gillham_illegal.28 props=C05,C01 tier=quick kind=contract fns=adsb/altitude.rs:altitude,adsb/altitude/graytobin.rs:graytobin draw=frame28 replay=altitude13
     //@region long frames, AC13 with M=0,Q=0, illegal Gillham code
     alt_region_proof!(c05_ac13_gillham_illegal_28, any_frame28, any_df_not17(), is_gillham_illegal);
 
-    //@ob id=C05.altitude.ac12.q1_nonneg props=C05,C01 tier=quick kind=contract fns=adsb/altitude.rs:altitude,adsb/altitude.rs:altitude_value,utils/me_code.rs:me_code draw=frame28
+    //@ob id=C05.altitude.ac12.q1_nonneg props=C05,C01 tier=quick kind=contract fns=adsb/altitude.rs:altitude,adsb/altitude.rs:altitude_value,utils/me_code.rs:me_code draw=frame28 replay=altitude12
     //@region DF17 frames, AC12 (bits 41-52) with Q=1 and 25N-1000>=0: altitude == 25N-1000
     alt_region_proof!(c05_ac12_q1_nonneg, any_frame28, df17(), is_q1);
-    //@ob id=C05.altitude.ac12.q1_neg props=C05,C01 tier=quick kind=contract fns=adsb/altitude.rs:altitude,adsb/altitude.rs:altitude_value draw=frame28
+    //@ob id=C05.altitude.ac12.q1_neg props=C05,C01 tier=quick kind=contract fns=adsb/altitude.rs:altitude,adsb/altitude.rs:altitude_value draw=frame28 replay=altitude12
     //@region DF17 frames, AC12 with Q=1 and N<40: no altitude, no overflow
     alt_region_proof!(c05_ac12_q1_neg, any_frame28, df17(), is_q1neg);
-    //@ob id=C05.altitude.ac12.zero props=C05,C01 tier=quick kind=contract fns=adsb/altitude.rs:altitude,adsb/altitude.rs:altitude_value draw=frame28
+    //@ob id=C05.altitude.ac12.zero props=C05,C01 tier=quick kind=contract fns=adsb/altitude.rs:altitude,adsb/altitude.rs:altitude_value draw=frame28 replay=altitude12
     //@region DF17 frames, AC12 all zero: no altitude
     alt_region_proof!(c05_ac12_zero, any_frame28, df17(), is_zero_or_metric);
-    //@ob id=C05.altitude.ac12.gillham_legal props=C05,C01 tier=quick kind=contract fns=adsb/altitude.rs:altitude,adsb/altitude/graytobin.rs:graytobin draw=frame28
+    //@ob id=C05.altitude.ac12.gillham_legal props=C05,C01 tier=quick kind=contract fns=adsb/altitude.rs:altitude,adsb/altitude/graytobin.rs:graytobin draw=frame28 replay=altitude12
     //@region DF17 frames, AC12 with Q=0, legal Gillham code
     alt_region_proof!(c05_ac12_gillham_legal, any_frame28, df17(), is_gillham_legal);
-    //@ob id=C05.altitude.ac12.gillham_illegal props=C05,C01 tier=quick kind=contract fns=adsb/altitude.rs:altitude,adsb/altitude/graytobin.rs:graytobin draw=frame28
+    //@ob id=C05.altitude.ac12.gillham_illegal props=C05,C01 tier=quick kind=contract fns=adsb/altitude.rs:altitude,adsb/altitude/graytobin.rs:graytobin draw=frame28 replay=altitude12
     //@region DF17 frames, AC12 with Q=0, illegal Gillham code: no altitude
     alt_region_proof!(c05_ac12_gillham_illegal, any_frame28, df17(), is_gillham_illegal);
 
